@@ -23,7 +23,7 @@ def EXHAUSTIVE(tier):
 
 
 def plan(tier):
-    return {"n_random": 320 if tier == "quick" else 0, "item_draws": 3, "time_s": 700 if tier == "quick" else 1750, "shrink_evals": 0}
+    return {"n_random": 640 if tier == "quick" else 0, "item_draws": 3, "time_s": 700 if tier == "quick" else 1750, "shrink_evals": 0}
 
 
 def items(tier):
@@ -55,6 +55,18 @@ def build_case(desc, out):
             out.discard = "precondition:thin-vacuum-slab-bonded-to-image"
             return None
         out.cls("thin-vacuum")
+    cform = desc.get("cform") if (c["form"] == "slab" and not c["pbcz"]) else None
+    if cform:
+        # the non-periodic direction of the cell: zero vector or tight box (set AFTER the precondition, which needs a full cell)
+        s = s.copy()
+        z = s.get_positions()[:, 2]
+        s.translate([0.0, 0.0, -z.min()])
+        cell = np.asarray(s.get_cell()).copy()
+        cell[2] = [0.0, 0.0, 0.0 if cform == "zero" else float(np.ptp(z))]
+        if cform == "tight" and np.ptp(z) < 0.5:
+            cell[2] = [0.0, 0.0, 0.0]
+        s.set_cell(cell, scale_atoms=False)
+        out.cls("cell-normal=" + cform)
     s2, perm = gm.present(s, desc["pres"], c["noise"])
     return s, s2, perm
 
@@ -71,6 +83,12 @@ def run_case(desc):
     if c["form"] == "slab":
         out.cls("facet=" + "".join(str(x) for x in c["facet"]), "pbcz=%s" % c["pbcz"])
     out.nontrivial = True
+    if np.abs(desc["pres"]["trans"]).max() > 5:
+        out.cls("far-translation")
+        if c["form"] == "slab" and not c["pbcz"]:
+            from ase.geometry import complete_cell
+            f = np.linalg.solve(complete_cell(np.asarray(s2.get_cell())).T, s2.get_positions().T).T[:, 2]
+            out.cls("slab-below-cell" if f.max() < 0 else "slab-above-cell" if f.min() > 1 else "slab-straddles-or-inside")
     ok, cl = call(lambda: SBC().get_clusters(s2, seed=desc["pres"]["sbc_seed"]))
     key = mcm.combo_key(c)
     if not ok:
